@@ -1,5 +1,5 @@
 #!/usr/bin/env python3
-"""C11 (A,B): the real semaphore and notify-list code of sema_llgo.go (copied from the working tree at check time) under the
+"""C11 (A,B,C): the real semaphore and notify-list code of sema_llgo.go (copied from the working tree at check time) under the
 controlled scheduler; every terminal state must be reachable in the reference semaphore / ticket specification."""
 import argparse, json, os, sys, subprocess
 sys.path.insert(0, "/verif/lib")
@@ -21,7 +21,12 @@ rep.coverage["rule"] = ("scenario = initial semaphore values x per-thread progra
     "waiter choice, <=1 spurious wake-up; terminal state (per-thread done/blocked position + counter values) must be reachable in the reference specification "
     "(semaphore: acquire needs value>0; notify list: Wait(t) may return only once the notify counter passed ticket t). non-trivial = scenarios with >1 terminal state")
 rep.assumptions += ["atomics sequentially consistent (the scheduler does not model weaker orderings)", "pthread mutex/cond modelled; Signal wakes any one waiter",
-                    "sync.Mutex/RWMutex/WaitGroup/Once/Cond themselves are Go's own code layered on these primitives (not re-explored here)"]
+                    "part C: sync.Mutex/RWMutex/WaitGroup/Once/Cond are the GOROOT sources llgo compiles (go1.24.0), import paths redirected, running on the real sema_llgo.go; "
+                    "whether a clock reading crosses the mutex starvation threshold is an environment choice (<=1 per execution)"]
+rep.coverage["rule"] += ("; C (mode sync): the standard library's Mutex, RWMutex, WaitGroup, Once and Cond on top of llgo's semaphores/notify list: 2-4 threads per scenario, all schedules at "
+    "atomic/lock/cond granularity within the bounds; oracles: never two holders (reader/writer exclusion), no lost update, every Lock/Wait/Do returns once it may (no blocked thread at "
+    "the end), Wait returns only after all Done, Do's function ran exactly once and completely before any Do returns, Cond.Wait returns only after a Signal/Broadcast issued after it "
+    "started waiting and exactly min(signals, waiters) / all waiters return")
 # ---- parts E (atomics table) and F (go statements): llgo-compiled programs
 import re, glob, shutil
 sys.path.insert(0, os.path.dirname(os.path.abspath(__file__)))
